@@ -248,7 +248,39 @@ SET_ITER_OK = {
 }
 
 
+SET_ITER_REVIEWED = {
+    ("chameleon.compiler.Compiler.visit_Macro", "self._slots"):
+        "one independent 'pop the filler' statement per slot name: the "
+        "statements commute",
+    ("chameleon.compiler.Compiler.visit_Translate", "self._translations[-1]"):
+        "initialisation of per-name block variables and dict entries of "
+        "the mapping: order-free",
+}
+
+
+def _set_iteration(repo, rep):
+    """G-SETITER over the whole package: str hashes differ between
+    processes, so an order-observing iteration over a set makes compiled
+    code or output depend on PYTHONHASHSEED."""
+    sites = L.set_iteration_sites(repo)
+    seen = set()
+    for f, lineno, kind, text in sites:
+        key = (f.qualname, text)
+        seen.add(key)
+        rep.check(key in SET_ITER_REVIEWED, "R14.3", f.qualname,
+                  "%s over the set %s is order-free (%s)" % (
+                      kind, text, SET_ITER_REVIEWED.get(key, "not reviewed: "
+                      "iteration order of a set of strings differs between "
+                      "processes")),
+                  construct="set-order:" + text, where=L.where(f, lineno))
+    rep.count("set_iteration_sites", len(sites))
+    if not sites:
+        raise AnalysisError("set iteration scan found no site at all (the "
+                            "reviewed ones vanished)")
+
+
 def _identifiers(repo, rep):
+    _set_iteration(repo, rep)
     comp = repo.cls(COMP + "Compiler")
     n_funcs = 0
     for name, m in sorted(comp.methods.items()):
@@ -324,6 +356,61 @@ def _publish(repo, rep):
                           % n.lineno, construct="early-flag:%s" % (
                               fn.name if fn else "?"),
                           where="%s:%d" % (m.relpath, n.lineno))
+    # a published entry point is never taken away again: removals come
+    # after the publication and spare the names just published (another
+    # thread may already be rendering through them)
+    pubs = [x.lineno for x in ast.walk(f.node) if isinstance(x, ast.Call)
+            and src(x.func) == "setattr" and "function" in src(x)]
+    rems = []
+    for x in ast.walk(f.node):
+        if (isinstance(x, ast.Call) and (
+                src(x.func) == "delattr" or (
+                    isinstance(x.func, ast.Attribute) and
+                    x.func.attr in ("pop", "clear", "popitem") and
+                    "__dict__" in src(x.func)))) or (
+                        isinstance(x, ast.Delete) and "__dict__" in src(x)):
+            rems.append(x)
+    for x in rems:
+        # the loop / comprehension that feeds the removal
+        a = x
+        filt = ""
+        while a is not None and a is not f.node:
+            if isinstance(a, ast.For):
+                filt += " " + src(a.iter)
+            a = getattr(a, "_parent", None)
+        spared = "not in functions" in filt
+        rep.check(bool(pubs) and min(pubs) < x.lineno and spared, "R14.4",
+                  f.qualname, "an entry point is removed only after the new "
+                  "ones are published, and never one of the new names "
+                  "(a concurrent render keeps finding _render)",
+                  construct="published-stays", where=L.where(f, x.lineno),
+                  detail="removal at line %d fed by '%s'; publication at %s"
+                         % (x.lineno, filt.strip()[:80], pubs))
+    # the shared loader's registry distinguishes everything the load depends
+    # on: the key is the whole positional argument tuple
+    c = repo.func("chameleon.loader.cache")
+    inner = [n for n in ast.walk(c.node) if isinstance(n, ast.FunctionDef)
+             and n is not c.node]
+    okk = False
+    detail = ""
+    if inner and inner[0].args.vararg is not None:
+        va = inner[0].args.vararg.arg
+        npos = len(inner[0].args.args)
+        gets = [n for n in ast.walk(inner[0]) if isinstance(n, ast.Call)
+                and src(n.func) == "self.registry.get"]
+        sets = [t for n in ast.walk(inner[0]) if isinstance(n, ast.Assign)
+                for t in n.targets if isinstance(t, ast.Subscript)
+                and src(t.value) == "self.registry"]
+        keys = [src(g.args[0]) for g in gets if g.args] + \
+            [src(t.slice) for t in sets]
+        okk = bool(gets) and bool(sets) and npos == 1 and \
+            all(k == va for k in keys)
+        detail = "keys %s, %d named positional parameter(s)" % (keys, npos)
+    rep.check(okk, "R14.4", c.qualname, "the loader registry is keyed by "
+              "the complete positional argument tuple (file and format): a "
+              "shared loader never hands out a template built for other "
+              "arguments", construct="registry-key", where=L.where(c),
+              detail=detail)
     # constructors do not mutate argument objects of the caller
     from .c16 import fresh_search_path
     okf, detail = fresh_search_path(repo)
